@@ -51,6 +51,26 @@ deriving instance DecidableEq for Except
 @[simp] theorem tryE_ok {α β : Type} (a : α) (f : Err → β) (g : α → β) : tryE (.ok a) f g = g a := rfl
 @[simp] theorem tryE_error {α β : Type} (e : Err) (f : Err → β) (g : α → β) : tryE (.error e : Except Err α) f g = f e := rfl
 
+/-- what follows a state-passing call, per way it ended (the state it left is there in both cases) -/
+@[inline] def tryR {σ α β : Type} (x : Res σ α) (onErr : Err → σ → β) (onOk : α → σ → β) : β :=
+  match x with
+  | .raised e s => onErr e s
+  | .ok v s => onOk v s
+
+@[simp] theorem tryR_ok {σ α β : Type} (v : α) (s : σ) (f : Err → σ → β) (g : α → σ → β) : tryR (.ok v s) f g = g v s := rfl
+@[simp] theorem tryR_raised {σ α β : Type} (e : Err) (s : σ) (f : Err → σ → β) (g : α → σ → β) :
+    tryR (.raised e s : Res σ α) f g = f e s := rfl
+
+/-- reading an attribute that may not have been assigned yet, or an attribute / method of a value that may be `None`:
+    AttributeError -/
+def attrE {α : Type} (x : Option α) : Except Err α :=
+  match x with
+  | none => .error .attr
+  | some a => .ok a
+
+@[simp] theorem attrE_some {α : Type} (a : α) : attrE (some a) = .ok a := rfl
+@[simp] theorem attrE_none {α : Type} : attrE (none : Option α) = .error .attr := rfl
+
 /-! ### integers -/
 
 /-- bits of `a` that are not bits of `b` (`a & ~b` for naturals) -/
@@ -111,6 +131,9 @@ def toBytesE (n k : Int) : Except Err Bytes :=
   if k < 0 then .error .value
   else if n < 0 ∨ n ≥ 256 ^ k.toNat then .error .overflow
   else .ok (Bytes.ofNatBE k.toNat n.toNat)
+
+/-- `x.rstrip(chars)` on bytes: the trailing bytes that occur in `chars` are dropped -/
+def rstrip (x chars : Bytes) : Bytes := (x.reverse.dropWhile fun b => chars.contains b).reverse
 
 def dictGetE {κ ν : Type} (d : Dict κ ν) (k : κ) : Except Err ν :=
   match d k with
